@@ -40,6 +40,11 @@ def check(repo: Repo, R) -> None:
                                         "a nested concatenation that reaches the exporter (a full-width slice of a Concat) is written inline in forward order: its parts come out swapped, widths unchanged"))
     R.run(c01.slice_resolution, repo, _sh.Retag(R, lambda r, k: "C03.9-resolution-keeps-bit-sequence" if any(x in k for x in ("concat-order", "::tail-", "flat-case", "_resolve_rest", "leading-slice-listed")) else None,
                                                "flattening a nested concatenation permutes its parts: Concat(Concat(a, b), c) is exported as c, a, b (same width, nothing notices)"))
+    R.run(c01.secondary, repo, _sh.Retag(R, lambda r, k: "C03.9-resolution-keeps-bit-sequence" if k.endswith("slices.py::_resolve_slice") else None,
+                                        "the bits peeled off a nested slice are put together again in another order (or neighbouring ones merged into an ascending range): `a[0:3][::-1]` comes out un-reversed, widths unchanged"),
+          noreturn_set(repo))
+    R.run(c01.ref_resolution, repo, _sh.Retag(R, lambda r, k: "C03.5-sliceable-kinds" if k.endswith("dependents-entered-with-the-referent") else None,
+                                             "a slice of a port reference whose port is wired to a bundle member is re-parented onto the bundle reference and never handed on to the flat signal: the in-range slice `drv.q[1:3]` is refused by the resolver"))
     R.run(_c02.export_slice_guards, repo, _sh.Retag(R, lambda r: "C03.9-resolution-keeps-bit-sequence",
                                                    "a reversed slice the resolver left on its signal (`a[2:0:-1]`) is exported as the ascending range a[1],a[2]: the selected bits are silently reversed"),
           noreturn_set(repo), "C02.4-guard-inventory")
@@ -53,6 +58,14 @@ def check(repo: Repo, R) -> None:
 def _find_inner_fn(repo: Repo) -> FuncInfo:
     """The function in hdl21/slice.py that constructs SliceInner (anchor by role)."""
     cands = [fi for fi in repo.funcs_in(F_SLICE) if pat.find("SliceInner(*$_)", fi.node) and fi.cls is None]
+    if len(cands) > 1:
+        # helpers split off the anchored function are read in place (canon.py inlines functions the reference tree does not
+        # have); what is left of them as definitions is not a second anchor
+        from .. import alpha
+        ref = alpha.reference().get(F_SLICE) or {}
+        known = [c for c in cands if c.qual in ref]
+        if len(known) == 1:
+            cands = known
     if len(cands) != 1:
         raise AnalysisError(f"anchor-vanished: expected one function constructing SliceInner in {F_SLICE}, found {[c.qual for c in cands]}")
     return cands[0]
